@@ -390,6 +390,88 @@ pub fn run(tier: Tier) -> i32 {
     for v in sup.violations {
         rep.stats.push_violation(v);
     }
+    // heavy regexes: each member compiles on its own, three or more of them together exceed the
+    // regex crate's size limit for a set, so the optimiser's merge of an or-group has to fall back;
+    // whatever it falls back to, the group matches exactly when some member matches on its own
+    {
+        let letters = ["a", "b", "c", "d", "e"];
+        let member = |c: &str, ins: bool| format!("{}?^\\pL{{100}}-{}$", if ins { "i" } else { "" }, c);
+        let mut rules: Vec<(String, Vec<&str>, bool)> = vec![];
+        for k in 2..=5usize {
+            for ins in [false, true] {
+                let ms: Vec<String> = letters[..k].iter().map(|c| member(c, ins)).collect();
+                let rows: String = ms.iter().map(|m| format!("  - f: '{}'\n", m)).collect();
+                rules.push((format!("detection:\n  A:\n{}  condition: A\ntrue_positives: []\ntrue_negatives: []\n", rows), letters[..k].to_vec(), ins));
+                let ids: String = ms.iter().enumerate().map(|(i, m)| format!("  M{}: {{f: '{}'}}\n", i, m)).collect();
+                let cond: Vec<String> = (0..k).map(|i| format!("M{}", i)).collect();
+                rules.push((format!("detection:\n{}  condition: {}\ntrue_positives: []\ntrue_negatives: []\n", ids, cond.join(" or ")), letters[..k].to_vec(), ins));
+                let rows2: String = ms.iter().map(|m| format!("  - f: '{}'\n    g: x\n", m)).collect();
+                rules.push((format!("detection:\n  A:\n{}  condition: A\ntrue_positives: []\ntrue_negatives: []\n", rows2), letters[..k].to_vec(), ins));
+                let lst: Vec<String> = ms.iter().map(|m| format!("'{}'", m)).collect();
+                rules.push((format!("detection:\n  A: {{f: [{}]}}\n  condition: A\ntrue_positives: []\ntrue_negatives: []\n", lst.join(", ")), letters[..k].to_vec(), ins));
+            }
+        }
+        let sws: Vec<u8> = if th { (0..16).collect() } else { vec![0, 0b0010, 0b0110, 0b1111] };
+        let parts: Vec<Stats> = rules
+            .par_iter()
+            .map(|(yaml, ls, ins)| {
+                let mut st = Stats::default();
+                let rule = match eng::load(yaml) {
+                    Ok(r) => r,
+                    Err(_) => {
+                        st.count("heavy_regex_rules_rejected_at_load", 1);
+                        return st;
+                    }
+                };
+                st.nontrivial += 1;
+                for sw in &sws {
+                    let r = if *sw == 0 {
+                        rule.clone()
+                    } else {
+                        match eng::optimise_with(&rule, *sw, &[]) {
+                            Ok((r, _)) => r,
+                            Err(p) => {
+                                st.push_violation(Violation {
+                                    signature: "heavy-regex-group:panic-in-optimise".into(),
+                                    witness: format!("{} ; rule {}", p, crate::c01::one_line(yaml)),
+                                    replay: json!({"kind":"optimise","rule_yaml":yaml,"sw_bits":sw,"hash_order_choices":[]}),
+                                });
+                                continue;
+                            }
+                        }
+                    };
+                    st.states += 1;
+                    for c in ["a", "b", "c", "d", "e", "f", "A", "C", "E"] {
+                        for g in [true, false] {
+                            let mut d = MObj::new().with("f", s(&format!("{}-{}", "x".repeat(100), c)));
+                            if g {
+                                d.set("g", s("x"));
+                            }
+                            let needs_g = yaml.contains("g: x");
+                            let hit = ls.iter().any(|l| *l == c || (*ins && l.eq_ignore_ascii_case(c)));
+                            let exp = hit && (!needs_g || g);
+                            let got = eng::matches(&r, &d);
+                            st.evaluations += 1;
+                            st.transitions += 1;
+                            st.traces += 1;
+                            if got != Ok(exp) {
+                                st.push_violation(Violation {
+                                    signature: format!("heavy-regex-group:{}", if got.is_err() { "panic-in-matches" } else if exp { "a-member-that-matches-on-its-own-is-lost" } else { "matches-although-no-member-does" }),
+                                    witness: format!("{:?}, expected {} on f = x{{100}}-{}{} after optimise({}) ; rule {}", got, exp, c, if g { ", g = x" } else { "" }, eng::sw_name(*sw), crate::c01::one_line(yaml).chars().take(200).collect::<String>()),
+                                    replay: json!({"kind":"optimise","rule_yaml":yaml,"sw_bits":sw,"hash_order_choices":[],"document":crate::report::mobj_to_json(&d)}),
+                                });
+                            }
+                        }
+                    }
+                }
+                st
+            })
+            .collect();
+        for p in parts {
+            rep.stats.merge(p);
+        }
+        rep.stats.count("heavy_regex_group_rules", rules.len() as u64);
+    }
     rep.stats.sample(json!({"pattern":"i*ab*","haystack":"bAB","reference":true}));
     rep.stats.sample(json!({"list":["a*","*ba","i*B*","?b$"],"haystack":"aab","reference":"OR of the members"}));
     rep.rule = "patterns: every needle over the alphabet up to the length bound in every relation (exact, x*, *x, *x*, quoted literal, each with and without the i prefix) plus a 30-regex set (each with/without i); haystacks: every string over the alphabet up to the length bound; singles: full product against the naive relation on &str (ASCII case folding); lists: all pairs of the short patterns (incl. a pattern with itself), lists with a member repeated next to a third one, all triples and quads of a 28-pattern mixed subset, evaluated as loaded and after default optimisation, against the OR of the members' reference results and the OR of the engine's own single-member verdicts. non-trivial = pattern/list has a matching and a non-matching haystack".into();
